@@ -63,7 +63,7 @@ class FuncInfo:
         if self.name.startswith("__"):
             return False
         last = self.module.name.rsplit(".", 1)[-1]
-        if self.cls is not None and self.cls.name.startswith("_") and not self.cls.name.startswith("__") and not self.cls.base_names:
+        if self.cls is not None and self.cls.name.startswith("_") and not self.cls.name.startswith("__") and all(b.split(".")[-1] in ("NamedTuple", "object") for b in self.cls.base_names):
             return True  # a method of a private helper class (one without bases: not a visitor, not part of a hierarchy)
         return self.name.startswith("_") or (last.startswith("_") and not last.startswith("__") and self.cls is None)
 
